@@ -616,8 +616,7 @@ Qed.
 
 Lemma hashkey_no_nan : forall v k, hashkey v = Some k -> no_nan v = true -> hk_flt k <> None.
 Proof.
-  intros v k H N. destruct v; simpl in H; inversion H; subst; simpl; try discriminate.
-  simpl in N. apply negb_true_iff in N. rewrite N. discriminate.
+  intros v k H N. destruct v; simpl in H; inversion H; subst; simpl; discriminate.
 Qed.
 
 Lemma bytes_cmp_refl : forall s, bytes_cmp s s = Eq.
@@ -625,17 +624,36 @@ Proof. intro s. apply bytes_cmp_eq. reflexivity. Qed.
 
 Ltac bsplit := repeat match goal with H : _ && _ = true |- _ => apply andb_true_iff in H; destruct H end.
 
+(* a hashable value that is == to something is not a NaN *)
+Lemma equals_hashable_no_nan_l : forall a b k, hashkey a = Some k -> equals a b = true -> no_nan a = true.
+Proof.
+  intros a b k Hk E. destruct a; simpl in Hk; try discriminate; try reflexivity.
+  rewrite equals_unfold in E. simpl.
+  destruct b; try discriminate; unfold feq_fi, feq in E;
+    try (destruct (of_int _) as [ni mi]); apply andb_true_iff in E; destruct E as [E _];
+    apply andb_true_iff in E; destruct E as [E _]; exact E.
+Qed.
+Lemma equals_hashable_no_nan_r : forall a b k, hashkey b = Some k -> equals a b = true -> no_nan b = true.
+Proof.
+  intros a b k Hk E. destruct b; simpl in Hk; try discriminate; try reflexivity.
+  rewrite equals_unfold in E. simpl.
+  destruct a; try discriminate; unfold feq_if, feq in E;
+    try (destruct (of_int _) as [ni mi]); apply andb_true_iff in E; destruct E as [E _];
+    apply andb_true_iff in E; destruct E as [_ E]; exact E.
+Qed.
+
 (* members with the same hash key are == *)
 Lemma hkey_equals : forall a b ka kb,
+  no_nan a = true -> no_nan b = true ->
   hashkey a = Some ka -> hashkey b = Some kb -> hkey_eqb ka kb = true -> equals a b = true.
 Proof.
-  intros a b ka kb Ha Hb E.
+  intros a b ka kb Na Nb Ha Hb E.
   destruct a; simpl in Ha; inversion Ha; subst; clear Ha;
   destruct b; simpl in Hb; inversion Hb; subst; clear Hb;
     unfold hkey_eqb in E; simpl in E; try discriminate; rewrite equals_unfold; simpl; auto; bsplit.
   - destruct b, b0; simpl in *; try discriminate; reflexivity.
   - assumption.
-  - destruct (is_nan mag) eqn:N1; [discriminate|]. destruct (is_nan mag0) eqn:N2; [discriminate|].
+  - simpl in Na, Nb. apply negb_true_iff in Na, Nb. rewrite Na, Nb in *.
     rewrite feq_spec by assumption. simpl in *. assumption.
   - assumption.
   - match goal with H : bytes_eqb _ _ = true |- _ => apply bytes_eqb_eq in H; subst end.
@@ -824,6 +842,7 @@ Proof.
   unfold seq_entry. rewrite Hk, F2.
   destruct (set_find_prop _ _ _ F2) as [I2 E2].
   destruct (hashkey v2) as [k2|] eqn:Hk2; [|discriminate]. simpl in E2. rewrite hkey_eqb_sym in E2.
+  rewrite forallb_forall in Ma.
   eapply hkey_equals; eauto.
 Qed.
 
@@ -980,7 +999,8 @@ Proof.
     unfold seq_entry. rewrite Hk, S2.
     destruct (set_find_prop _ _ _ S2) as [I'' K''].
     destruct (hashkey v'') as [k''|] eqn:Hk''; [|discriminate]. simpl in K''. rewrite hkey_eqb_sym in K''.
-    eapply hkey_equals; eauto.
+    eapply hkey_equals; eauto;
+      [exact (equals_hashable_no_nan_l v v' k Hk F1)|exact (equals_hashable_no_nan_r v' v'' k'' Hk'' F2)].
 Qed.
 
 Lemma equals_trans : forall a b c,
